@@ -109,6 +109,11 @@ func (e *Engine) reportKind(kind, id string, neg *Term) {
 	if v.Vector == nil {
 		v.Vector = []uint64{}
 	}
+	if e.par != nil {
+		v.Text += " schedule=" + string(e.par.log)
+	} else if e.schedLog != "" {
+		v.Text += " schedule=" + e.schedLog
+	}
 	e.found[v.key()] = v
 }
 
@@ -125,7 +130,7 @@ func (e *Engine) resetPath(prefix []Decision) {
 	e.vecPos = 0
 	e.observed = nil
 	e.symbolicSeen = false
-	e.ls = lockState{shared: map[*Value]string{}, sharedMaps: map[*MapV]string{}, held: map[*Value]string{}, names: map[*Value]string{}}
+	e.ls = lockState{shared: map[*Value]string{}, sharedMaps: map[*MapV]string{}, held: map[heldKey]string{}, names: map[*Value]string{}}
 	e.readonly = map[*Value]string{}
 	e.roMaps = map[*MapV]string{}
 	e.mapAdversary = false
@@ -140,6 +145,10 @@ func (e *Engine) resetPath(prefix []Decision) {
 	e.clock = 0
 	e.poolPrivate = nil
 	e.syncMaps = nil
+	e.par = nil
+	e.mutexes = map[*Value]*mutexSt{}
+	e.auxN = 0
+	e.schedLog = ""
 	e.cellArr = nil
 	e.copyCells = nil
 	e.initRan = map[*ssa.Package]bool{}
@@ -152,7 +161,9 @@ func (e *Engine) resetPath(prefix []Decision) {
 func (e *Engine) runPath(entry *ssa.Function, prefix []Decision) (end pathEnd) {
 	e.resetPath(prefix)
 	defer func() {
-		if r := recover(); r != nil {
+		r := recover()
+		e.endThreads()
+		if r != nil {
 			switch r := r.(type) {
 			case pathEnd:
 				end = r
